@@ -283,9 +283,30 @@ def props_assumptions(prop_id, timeout=600):
     src = open(os.path.join(COQ, vfile)).read()
     theorems = re.findall(r"^\s*(?:Theorem|Corollary)\s+([A-Za-z0-9_']+)", src, re.M)
     printed = re.findall(r"^\s*Print Assumptions\s+([A-Za-z0-9_'.]+)\s*\.", src, re.M)
-    rc, text = run_cmd(["coqc", "-Q", ".", "Pandora", "-w", "-all", vfile], timeout, cwd=COQ)
-    if rc != 0:
-        return False, theorems, {}, text
+    # The output of Print Assumptions is a function of the compiled file (a .vo embeds the checksums of
+    # everything it depends on): it is kept beside the build, keyed by the SHA-1 of Props/<id>.vo, and the
+    # file is compiled a second time only when that .vo changed since the output was captured.
+    vo = os.path.join(COQ, "Props", prop_id + ".vo")
+    cache = os.path.join(BUILD, "assumptions", prop_id + ".json")
+    text = None
+    try:
+        key = hashlib.sha1(open(vo, "rb").read()).hexdigest()
+        c = json.load(open(cache))
+        if c.get("vo_sha1") == key and c.get("src_sha1") == hashlib.sha1(src.encode()).hexdigest():
+            text = c["text"]
+    except (OSError, ValueError):
+        pass
+    if text is None:
+        rc, text = run_cmd(["coqc", "-Q", ".", "Pandora", "-w", "-all", vfile], timeout, cwd=COQ)
+        if rc != 0:
+            return False, theorems, {}, text
+        try:
+            os.makedirs(os.path.dirname(cache), exist_ok=True)
+            with open(cache, "w") as f:
+                json.dump({"vo_sha1": hashlib.sha1(open(vo, "rb").read()).hexdigest(),
+                           "src_sha1": hashlib.sha1(src.encode()).hexdigest(), "text": text}, f)
+        except OSError:
+            pass
     # split the output into one block per Print Assumptions, in order
     blocks = re.split(r"(?=Closed under the global context|Axioms:)", text)
     blocks = [b for b in blocks if b.startswith("Closed under") or b.startswith("Axioms:")]
